@@ -10,8 +10,9 @@ from common import (Kernel, call_impl, coq_bool, coq_list, coq_nat, fl, flv, gri
 ID = "C14"
 N_CASES = {"quick": 400, "thorough": 6000, "search": 4000}
 RULE = ("seeded streams: segments / lines / polylines (0-7 vertices, open and closed) on dyadic grids times a power "
-        "of two against generic planes (rational unit normals normalised in binary64; decisions compared only when "
-        "every endpoint is farther than 1e-6*scale from the plane) and exact planes (axis or 22-bit dyadic normals, "
+        "of two against generic planes (rational unit normals normalised in binary64; a row / edge is judged when both "
+        "its ends are farther than 1e-12 * (largest coordinate) from the plane, i.e. down to a thousand times the rounding "
+        "error; one-end-near streams put endpoints at 1e-6..1e-10*scale from generic planes) and exact planes (axis or 22-bit dyadic normals, "
         "endpoints exactly on the plane, segments inside / parallel to the plane, axis-parallel segments with equal "
         "coordinates); extreme scales 2^-30..2^30 also in the quick tier; tiny features at unit-size positions (segments, "
         "polyline edges of length ~1e-9*scale across / beside / inside axis-normal planes, direction vectors ~1e-9*scale); "
@@ -21,11 +22,14 @@ TRUSTED = ["Coq 8.16.1 kernel, vm_compute for the correspondence evaluation",
            "axioms (Print Assumptions): ClassicalDedekindReals.sig_forall_dec, sig_not_dec, "
            "FunctionalExtensionality.functional_extensionality_dep, Classical_Prop.classic (all Coq stdlib Reals)",
            "tools/symtrace.py tracing translator + numpy shim (re-validated numerically each run)",
-           "coq/Agree.v agreement relation (relative tolerance 1e-9; side decisions compared only when |sd|>1e-6*scale "
+           "K_C14.v agreement relation (tolerance 1e-9 relative to the largest input coordinate, no floor; side decisions compared only when |sd| > 1e-12 * that magnitude "
            "unless arithmetic is exact)",
            "NumPy, vg"]
 CASE_IMPORTS = [("PW.model", "M_plane"), ("PW.model", "M_plane_xsect")]
-ASSUMPTIONS = ["theorems are about exact real arithmetic; binary64 rounding is covered only by the tolerance of the "
+ASSUMPTIONS = ["*_tiny cases (features of size 1e-9*scale at unit-size positions) judge the DECISIONS of the routines (which "
+               "rows / edges are reported, None / NaN / flags); the reported positions are compared relative to the size of "
+               "the coordinates (1e-9 of it), which is coarser than the features themselves",
+               "theorems are about exact real arithmetic; binary64 rounding is covered only by the tolerance of the "
                "correspondence check on sampled inputs",
                "endpoints within rounding error of the plane are excluded (their side is not determined)"]
 
@@ -214,6 +218,17 @@ def _tiny_point(rng, scale, plane, delta):
     return [ref[j] + (k1 + o1) * tang[0][j] + (k2 + o2) * tang[1][j] + off * nrm[j] for j in range(3)]
 
 
+def _near_point(rng, scale, plane):
+    """generic plane: a grid point moved (in binary64) to within 1e-6..1e-10 * scale of the plane, on a random side. Its
+    side is still determined (the rounding error of a signed distance is about 1e-15 * scale). Used for ONE end of a
+    segment / edge only: with both ends that close the crossing point itself would be ill-conditioned."""
+    ref, nrm, _ = plane
+    g = np.array([x * scale for x in grid_vec(rng)])
+    n = np.array(nrm)
+    p = g - np.dot(g - np.array(ref), n) * n + rng.choice([-1.0, 1.0]) * scale * 10.0 ** -rng.randint(6, 10) * n
+    return [float(x) for x in p]
+
+
 def _point(rng, scale, plane, tiny=None):
     ref, nrm, tang = plane
     if tiny is not None and rng.random() < 0.8:
@@ -224,6 +239,9 @@ def _point(rng, scale, plane, tiny=None):
 
 
 def _segment(rng, scale, plane, tiny=None):
+    if plane[2] is None and rng.random() < 0.15:
+        a, b = _near_point(rng, scale, plane), [x * scale for x in grid_vec(rng)]   # one end near the plane, the other far
+        return (a, b) if rng.random() < 0.5 else (b, a)
     a = _point(rng, scale, plane, tiny)
     u = rng.random()
     if tiny is not None and u < 0.7:
@@ -243,6 +261,11 @@ def _segment(rng, scale, plane, tiny=None):
     return a, b
 
 
+def c_closed_odd(k):
+    """the closing edge (k-1, 0) joins an odd vertex to vertex 0 only when k is even: then vertex k-1 stays far"""
+    return k >= 2 and (k - 1) % 2 == 1
+
+
 def _scale(rng, tier):
     """power-of-two scale; the quick tier also gets a share of extreme ones (absolute tolerances in the code under
     test only bite far from unit size)"""
@@ -253,9 +276,68 @@ def _scale(rng, tier):
     return 2.0 ** rng.randint(-10, 10)
 
 
+def _int_case(rng):
+    """whole-number data passed as int64 arrays (the plane's arrays, the stacks, or both): an axis-normal plane, and
+    segments / rays / polylines / pairwise rows with crossing, same-side, on-plane, parallel and zero-length members"""
+    ax = rng.randrange(3)
+    nrm = [0.0, 0.0, 0.0]
+    nrm[ax] = rng.choice([1.0, -1.0])
+    ref = [float(rng.randint(-4, 4)) for _ in range(3)]
+
+    def pt():
+        v = [float(rng.randint(-5, 5)) for _ in range(3)]
+        v[ax] = ref[ax] + rng.choice([-3, -2, -1, -1, 0, 1, 1, 2, 3])
+        return v
+
+    def seg():
+        a = pt()
+        w = rng.random()
+        if w < 0.2:
+            b = list(a)
+            b[(ax + rng.choice([1, 2])) % 3] += rng.choice([-2, -1, 1, 3])      # parallel to the plane
+        elif w < 0.3:
+            b = list(a)                                                        # zero length
+        elif w < 0.45:
+            b = list(a)
+            b[ax] += rng.choice([-4, -2, -1, 1, 2, 5])                          # along the normal: two equal coordinates
+        else:
+            b = pt()
+        return a, b
+
+    base = {"exact": True, "scale": 1.0, "ref": ref, "normal": nrm, "int": rng.choice(["plane", "stack", "both", "both"])}
+    u = rng.random()
+    if u < 0.4:
+        segs = [seg() for _ in range(rng.choice([1, 1, 2, 3, 5]))]
+        return dict(base, kind="segments_exact_int", a=[x[0] for x in segs], b=[x[1] for x in segs])
+    if u < 0.6:
+        k = rng.choice([1, 1, 2, 4])
+        rays = []
+        for _ in range(k):
+            r = [float(rng.randint(-3, 3)) for _ in range(3)]
+            if rng.random() < 0.3:
+                r[ax] = 0.0                                                     # parallel to the plane (or zero)
+            rays.append(r)
+        return dict(base, kind="lines_exact_int", pts=[pt() for _ in range(k)], rays=rays)
+    if u < 0.85:
+        return dict(base, kind="polyline_exact_int", v=[pt() for _ in range(rng.choice([0, 1, 2, 3, 4, 6]))],
+                    closed=rng.random() < 0.5)
+    k = rng.choice([1, 2, 3])
+    rows = []
+    for _ in range(k):
+        s0, v0_ = pt(), [float(rng.randint(-3, 3)) for _ in range(3)]
+        n0_ = [float(rng.randint(-2, 2)) for _ in range(3)]
+        p0_ = pt() if rng.random() < 0.7 else [a + rng.choice([0, 1]) * b for a, b in zip(s0, v0_)]
+        rows.append((s0, v0_, p0_, n0_))
+    return {"kind": "isp_pairs_int", "scale": 1.0, "int": "both", "starts": [r[0] for r in rows], "segvs": [r[1] for r in rows],
+            "pops": [r[2] for r in rows], "nrms": [r[3] for r in rows]}
+
+
 def gen_cases(rng, n, tier):
     cases = []
     for _ in range(n):
+        if rng.random() < 0.12:
+            cases.append(_int_case(rng))
+            continue
         u = rng.random()
         scale = _scale(rng, tier)
         exact = rng.random() < 0.5
@@ -291,6 +373,12 @@ def gen_cases(rng, n, tier):
         elif u < 0.85:
             k = rng.choice([0, 1, 2, 2, 3, 4, 5, 7])
             v = [_point(rng, scale, plane, tiny) for _ in range(k)]
+            if not exact and rng.random() < 0.3:
+                for i in range(1, k, 2):          # odd vertices only: no edge gets two near ends
+                    if rng.random() < 0.5:
+                        v[i] = _near_point(rng, scale, plane)
+                if c_closed_odd(k):
+                    v[k - 1] = [x * scale for x in grid_vec(rng)]
             if k >= 2 and rng.random() < 0.15:
                 v[rng.randrange(1, k)] = list(v[0])  # repeated vertex
             cases.append(dict(base, kind="polyline" + tag, v=v, closed=rng.random() < 0.5))
@@ -320,24 +408,34 @@ def gen_cases(rng, n, tier):
             cases.append({"kind": "isp_pairs", "scale": scale, "starts": [r[0] for r in rows], "segvs": [r[1] for r in rows],
                           "pops": [r[2] for r in rows], "nrms": [r[3] for r in rows]})
     for c in cases:
-        if c["kind"] != "isp_pairs" and not c["exact"] and _undecided(c):
+        if not c["kind"].startswith("isp_pairs") and not c["exact"] and _undecided(c):
             c["kind"] += "_undecided"   # shows in the evidence histogram: (part of) the case is skipped, not judged
     return cases
+
+
+def _band(c):
+    """decision band of a generic-plane case: 1e-12 times the largest coordinate of its data. The rounding error of a
+    signed distance is a few 1e-16 of that magnitude; coordinates that are on the plane over the reals land at about
+    1e-16 of it, everything else on the dyadic grids at 1e-3 of it or farther, except the deliberately near points."""
+    coords = [abs(Fr(x)) for x in c["ref"]]
+    for key in ("a", "b", "v", "pts"):
+        coords += [abs(Fr(x)) for p in c.get(key, []) for x in p]
+    return (max(coords) if coords else Fr(0)) / 10 ** 12
 
 
 def _undecided(c):
     """a generic-plane case with an endpoint within the band of the plane / a ray within the band of parallel:
     those rows (for a polyline: the whole case) are excluded by the property text and skipped by the check"""
     ref, nrm = [Fr(x) for x in c["ref"]], [Fr(x) for x in c["normal"]]
-    band = Fr(c["scale"]) / 10 ** 6
+    band = _band(c)
     if c["kind"].startswith("lines"):
-        return any(abs(sum(Fr(x) * n for x, n in zip(r, nrm))) <= Fr(1, 10 ** 6) * max(abs(Fr(x)) for x in r) for r in c["rays"])
+        return any(abs(sum(Fr(x) * n for x, n in zip(r, nrm))) <= Fr(1, 10 ** 12) * max(abs(Fr(x)) for x in r) for r in c["rays"])
     pts = c["v"] if c["kind"].startswith("polyline") else c["a"] + c["b"]
     return any(abs(sum((Fr(x) - r) * n for x, r, n in zip(p, ref, nrm))) <= band for p in pts)
 
 
-def _arr(pts):
-    return np.array(pts, dtype=np.float64).reshape(-1, 3)
+def _arr(pts, dtype=np.float64):
+    return np.array(pts, dtype=dtype).reshape(-1, 3)
 
 
 def _row(x):
@@ -351,17 +449,20 @@ def run_impl(c):
     def go():
         with warnings.catch_warnings(), np.errstate(all="ignore"):
             warnings.simplefilter("ignore")
-            if c["kind"] == "isp_pairs":
-                s, v, p, n = _arr(c["starts"]), _arr(c["segvs"]), _arr(c["pops"]), _arr(c["nrms"])
+            # whole-number cases may pass the plane's arrays, the stacks, or both as int64
+            dt_plane = np.int64 if c.get("int") in ("plane", "both") else np.float64
+            dt = np.int64 if c.get("int") in ("stack", "both") else np.float64
+            if c["kind"].startswith("isp_pairs"):
+                s, v, p, n = _arr(c["starts"], dt), _arr(c["segvs"], dt), _arr(c["pops"], dt), _arr(c["nrms"], dt)
                 before = [x.copy() for x in (s, v, p, n)]
                 rows = intersect_segment_with_plane(s, v, p, n).tolist()
                 single = [intersect_segment_with_plane(s[i], v[i], p[i], n[i]).tolist() for i in range(len(s))]
                 return {"rows": rows, "single": single,
                         "args_unchanged": all(np.array_equal(x, y) for x, y in zip(before, (s, v, p, n)))}
-            pl = Plane(np.array(c["ref"]), np.array(c["normal"]))
+            pl = Plane(np.array(c["ref"], dtype=dt_plane), np.array(c["normal"], dtype=dt_plane))
             o = {"ref": pl.reference_point.tolist(), "normal": pl.normal.tolist()}
             if c["kind"].startswith("segments"):
-                a, b = _arr(c["a"]), _arr(c["b"])
+                a, b = _arr(c["a"], dt), _arr(c["b"], dt)
                 before = (a.copy(), b.copy())
                 k = len(a)
                 o["single"] = [_row(pl.line_segment_xsection(a[i], b[i])) for i in range(k)]
@@ -373,14 +474,14 @@ def run_impl(c):
                     a, b - a, np.tile(pl.reference_point, (k, 1)), np.tile(pl.normal, (k, 1))).tolist()
                 o["args_unchanged"] = bool(np.array_equal(a, before[0]) and np.array_equal(b, before[1]))
             elif c["kind"].startswith("lines"):
-                pts, rays = _arr(c["pts"]), _arr(c["rays"])
+                pts, rays = _arr(c["pts"], dt), _arr(c["rays"], dt)
                 before = (pts.copy(), rays.copy())
                 o["single"] = [_row(pl.line_xsection(pts[i], rays[i])) for i in range(len(pts))]
                 rows, valid = pl.line_xsections(pts, rays)
                 o["st_rows"], o["st_valid"] = rows.tolist(), [bool(x) for x in valid]
                 o["args_unchanged"] = bool(np.array_equal(pts, before[0]) and np.array_equal(rays, before[1]))
             else:
-                poly = Polyline(_arr(c["v"]), is_closed=c["closed"])
+                poly = Polyline(_arr(c["v"], dt), is_closed=c["closed"])
                 pts, idx = poly.intersect_plane(pl, ret_edge_indices=True)
                 o["pts"], o["idx"] = pts.tolist(), [int(i) for i in idx]
                 o["pts_only"] = poly.intersect_plane(pl).tolist()
@@ -398,12 +499,12 @@ def coq_case(c, o):
     if isinstance(o, dict) and "raise" in o:
         # no call of this property's generators is expected to raise: make the case fail in Coq
         return "CIsp [] [] [] [] [[FNan]] []"
-    if c["kind"] == "isp_pairs":
+    if c["kind"].startswith("isp_pairs"):
         return "CIsp %s %s %s %s %s %s" % (coq_list(qv(p) for p in c["starts"]), coq_list(qv(p) for p in c["segvs"]),
                                            coq_list(qv(p) for p in c["pops"]), coq_list(qv(p) for p in c["nrms"]),
                                            _rows(o["rows"]), _rows(o["single"]))
     pl = "(MkPlane %s %s)" % (qv(o["ref"]), qv(o["normal"]))
-    head = "%s %s %s" % (coq_bool(c["exact"]), q(Fr(c["scale"]) / 10 ** 6), pl)
+    head = "%s %s %s" % (coq_bool(c["exact"]), q(_band(c)), pl)
     if c["kind"].startswith("segments"):
         return "CSegs %s %s %s %s %s %s %s %s" % (
             head, coq_list(qv(p) for p in c["a"]), coq_list(qv(p) for p in c["b"]), _rows(o["single"]), _rows(o["st_rows"]),
@@ -459,7 +560,7 @@ def oracle(c, o):
     if not o["args_unchanged"]:
         return "an argument array was modified"
     scale = Fr(c["scale"])
-    if c["kind"] == "isp_pairs":
+    if c["kind"].startswith("isp_pairs"):
         if len(o["rows"]) != len(c["starts"]):
             return "stacked result has the wrong number of rows"
         for i, (s, v, p, n) in enumerate(zip(c["starts"], c["segvs"], c["pops"], c["nrms"])):
@@ -480,7 +581,7 @@ def oracle(c, o):
         return None
     ref, nrm = _F(o["ref"]), _F(o["normal"])
     exact = c["exact"]
-    band = scale / 10 ** 6
+    band = _band(c)
 
     def sd(p):
         return _dot([x - y for x, y in zip(p, ref)], nrm)
@@ -534,7 +635,7 @@ def oracle(c, o):
             pt, ray = _F(c["pts"][i]), _F(c["rays"][i])
             den = _dot(ray, nrm)
             # the rounding error of ray.normal is relative to the length of the ray, not to the positions
-            if not (exact or abs(den) > Fr(1, 10 ** 6) * max(abs(x) for x in ray)):
+            if not (exact or abs(den) > Fr(1, 10 ** 12) * max(abs(x) for x in ray)):
                 continue
             single, srow, sval = o["single"][i], o["st_rows"][i], o["st_valid"][i]
             mag = max([scale] + [abs(x) for x in pt + ray + ref])
@@ -553,8 +654,7 @@ def oracle(c, o):
     v = [_F(p) for p in c["v"]]
     nv = len(v)
     ds = [sd(p) for p in v]
-    if not (exact or all(abs(d) > band for d in ds)):
-        return None
+    ok = [exact or abs(d) > band for d in ds]     # per vertex; an edge is judged when both its ends are decided
     edges = [(i, i + 1) for i in range(nv - 1)] + ([(nv - 1, 0)] if c["closed"] and nv >= 1 else [])
     idx, pts = o["idx"], o["pts"]
     if len(idx) != len(pts):
@@ -570,6 +670,8 @@ def oracle(c, o):
     mag = max([scale] + [abs(x) for p in v for x in p] + [abs(x) for x in ref])
     for e, (i, j) in enumerate(edges):
         da, db = ds[i], ds[j]
+        if not (ok[i] and ok[j]):
+            continue
         if da * db < 0:
             t = da / (da - db)
             x = [p + t * (r - p) for p, r in zip(v[i], v[j])]
@@ -583,4 +685,5 @@ def oracle(c, o):
 
 
 def classify(c, o, failure, disagrees):
+    # no listed finding: the int64-stack defect (ValueError in the stacked forms) was repaired in /repo commit 8280517
     return None
